@@ -336,6 +336,8 @@ class Tr:
             if isinstance(s, ast.Assign) and len(s.targets) != 1:
                 fail(s, "multiple targets")
             t, ty = self.expr(s.value)
+            if ty == "none":
+                t = "(@None Z)"        # the only optional type of the subset is int | None
             if isinstance(tgt, ast.Name):
                 nm = tgt.id
                 self.c.fresh += 1
@@ -376,7 +378,14 @@ class Tr:
             t, tt = self.expr(s.test)
             if tt != "bool":
                 fail(s, "if test not bool")
+            # flow-sensitive: `x is not None` conjuncts make x a plain int in the true branch
+            saved_env = dict(self.c.env)
+            for nm in self.notnone_names(s.test):
+                cn, ty = self.c.env[nm]
+                if ty == "optint":
+                    self.c.env[nm] = (f"(unwrapZ {cn})", "int")
             a = self.block(s.body + rest) if not self.returns(s.body) else self.block(s.body)
+            self.c.env = saved_env
             if s.orelse:
                 b = self.block(s.orelse + rest) if not self.returns(s.orelse) else self.block(s.orelse)
             else:
@@ -387,6 +396,22 @@ class Tr:
                 fail(s, "bare return")
             t, ty = self.expr(s.value)
             want = self.c.ret
+            if want.startswith("tuple:") and ty.startswith("tuple:") and isinstance(s.value, ast.Tuple):
+                wants = want[6:].split(",")
+                parts = [self.expr(e) for e in s.value.elts]
+                if len(parts) != len(wants):
+                    fail(s, "tuple arity")
+                outs = []
+                for (pt, pty), w in zip(parts, wants):
+                    if pty == w:
+                        outs.append(pt)
+                    elif w == "optint" and pty == "int":
+                        outs.append(f"(Some {pt})")
+                    elif w == "optint" and pty == "none":
+                        outs.append("None")
+                    else:
+                        fail(s, f"tuple component {pty} for {w}")
+                return self.wrap_ret("(" + ", ".join(outs) + ")")
             if ty != want:
                 if want == "f64" and ty in ("int", "u64"):
                     t = as_f64(t, ty)
@@ -402,6 +427,16 @@ class Tr:
                 fail(s, "raise in a function declared total")
             return "None"
         fail(s, "unsupported statement")
+
+    def notnone_names(self, test):
+        out = []
+        conj = test.values if isinstance(test, ast.BoolOp) and isinstance(test.op, ast.And) else [test]
+        for c in conj:
+            if (isinstance(c, ast.Compare) and len(c.ops) == 1 and isinstance(c.ops[0], ast.IsNot)
+                    and isinstance(c.left, ast.Name) and isinstance(c.comparators[0], ast.Constant)
+                    and c.comparators[0].value is None and c.left.id in self.c.env):
+                out.append(c.left.id)
+        return out
 
     def returns(self, stmts):
         if not stmts:
@@ -541,6 +576,16 @@ def gen_mem():
     return "\n\n".join(out) + "\n"
 
 
+def gen_util():
+    """bblean/cli.py: parse_num_per_batch (nested in _fps_from_smiles)"""
+    out = [HEADER.format(src="bblean/cli.py")]
+    out.append(translate_function(
+        "bblean/cli.py", "_fps_from_smiles.parse_num_per_batch", "parse_num_per_batch",
+        [("smiles_num", "int"), ("parts", "optint"), ("max_fps_per_file", "optint")],
+        "tuple:int,int,optint", {}, raises=True))
+    return "\n\n".join(out) + "\n"
+
+
 def write_if_changed(path: Path, text: str):
     if path.exists() and path.read_text() == text:
         return False
@@ -577,6 +622,7 @@ def main():
     else:
         attempt("GMerges", lambda: (_ for _ in ()).throw(Unsupported("GSim failed")))
     attempt("GMem", gen_mem)
+    attempt("GUtil", gen_util)
     for k, v in status.items():
         print(f"translate {k}: {v}")
     return 0 if all(v == "ok" for v in status.values()) else 1
